@@ -865,3 +865,143 @@ func ReturnsFromLoop(body map[*ssa.BasicBlock]bool) []*ssa.Return {
 	_, early := OnlyHeaderExits(body)
 	return ReturnsReachable(early, nil)
 }
+
+// ReachesAvoidingBlocks decides whether target block can be reached from the
+// start edges without passing through a block of `through` (and without
+// crossing avoid edges). The start edge targets themselves count as passed.
+func ReachesAvoidingBlocks(starts []Edge, target *ssa.BasicBlock, through map[*ssa.BasicBlock]bool, avoid []Edge, posf Posf) (bool, []string) {
+	av := map[Edge]bool{}
+	for _, e := range avoid {
+		av[e] = true
+	}
+	seen := map[*ssa.BasicBlock]bool{}
+	parent := map[*ssa.BasicBlock]*ssa.BasicBlock{}
+	var q []*ssa.BasicBlock
+	for _, e := range starts {
+		if av[e] {
+			continue
+		}
+		s := e.To()
+		if !seen[s] {
+			seen[s] = true
+			q = append(q, s)
+		}
+	}
+	for len(q) > 0 {
+		b := q[0]
+		q = q[1:]
+		if b == target {
+			return true, witness(parent, b, posf)
+		}
+		if through[b] {
+			continue
+		}
+		for i, s := range b.Succs {
+			if av[Edge{b, i}] || seen[s] {
+				continue
+			}
+			seen[s] = true
+			parent[s] = b
+			q = append(q, s)
+		}
+	}
+	return false, nil
+}
+
+// Path is one acyclic CFG path given as its sequence of blocks.
+type Path []*ssa.BasicBlock
+
+// Crosses reports whether the path takes edge e.
+func (p Path) Crosses(e Edge) bool {
+	for i := 0; i+1 < len(p); i++ {
+		if p[i] == e.From && p[i+1] == e.To() {
+			// make sure it is this successor index (two edges to the same block are equivalent here)
+			return true
+		}
+	}
+	return false
+}
+
+// CrossesAny reports whether the path takes any of es.
+func (p Path) CrossesAny(es []Edge) bool {
+	for _, e := range es {
+		if p.Crosses(e) {
+			return true
+		}
+	}
+	return false
+}
+
+// Resolve follows phi nodes along the path: the value v has when control
+// arrives at the end of the path. Non-phi values are returned unchanged.
+func (p Path) Resolve(v ssa.Value) ssa.Value {
+	for depth := 0; depth < 32; depth++ {
+		phi, ok := v.(*ssa.Phi)
+		if !ok {
+			return v
+		}
+		// find the last occurrence of phi's block in the path and its predecessor
+		idx := -1
+		for i := len(p) - 1; i >= 1; i-- {
+			if p[i] == phi.Block() {
+				idx = i
+				break
+			}
+		}
+		if idx < 1 {
+			return v
+		}
+		pred := p[idx-1]
+		found := false
+		for i, pb := range phi.Block().Preds {
+			if pb == pred {
+				v = phi.Edges[i]
+				found = true
+				break
+			}
+		}
+		if !found {
+			return v
+		}
+		// the resolved value is defined before idx: continue resolving on the prefix
+		p = p[:idx]
+	}
+	return v
+}
+
+// AcyclicPaths enumerates the loop-free paths from the entry block to the
+// block of target (at most max; ok=false if more exist or a loop is involved).
+func AcyclicPaths(target ssa.Instruction, max int) (paths []Path, ok bool) {
+	fn := target.Parent()
+	tb := target.Block()
+	ok = true
+	onPath := map[*ssa.BasicBlock]bool{}
+	var cur Path
+	var dfs func(b *ssa.BasicBlock)
+	dfs = func(b *ssa.BasicBlock) {
+		if !ok {
+			return
+		}
+		cur = append(cur, b)
+		onPath[b] = true
+		if b == tb {
+			cp := make(Path, len(cur))
+			copy(cp, cur)
+			paths = append(paths, cp)
+			if len(paths) > max {
+				ok = false
+			}
+		} else {
+			for _, s := range b.Succs {
+				if onPath[s] {
+					continue // skip back edges: loop-free paths only
+				}
+				dfs(s)
+			}
+		}
+		onPath[b] = false
+		cur = cur[:len(cur)-1]
+	}
+	dfs(fn.Blocks[0])
+	return paths, ok
+}
